@@ -282,6 +282,8 @@ structure OpsOk (c : Cls) (k : RelKind) (ops : RecOps) : Prop where
   entsizeSmall : ∀ e, ops.entsizeSmall e = true ↔ e.toNat < ops.size
   getOff : ∀ i e, ops.getOff i e = i * e
   setOff : ∀ i e, ops.setOff i e = i * e
+  setSmall : ∀ e, ops.setSmall e = true ↔ e.toNat < ops.size
+  setNodata : ∀ x, ops.setNodata x = x
   getOffset : ∀ v, v < 2 ^ (8 * wordBytes c) → (ops.getOffset v).toNat = v
   rSym : ∀ v, v < 2 ^ (8 * wordBytes c) → (ops.rSym (ops.getTmp v)).toNat = Spec.rSym c v
   rType : ∀ v, v < 2 ^ (8 * wordBytes c) → (ops.rType (ops.getTmp v)).toNat = Spec.rType c v
@@ -347,6 +349,8 @@ theorem opsOk32rel : OpsOk .c32 .rel ops32rel where
   addendOff := by intro h; cases h
   addendW := by intro h; cases h
   entsizeSmall := by intro e; simp [ops32rel, reloc_getrel32_entsize_small, BitVec.ult, sizeof_Elf32_Rel]
+  setSmall := by intro e; simp [ops32rel, reloc_setrel32_entsize_small, BitVec.ult, sizeof_Elf32_Rel]
+  setNodata := by intro x; rfl
   getOff := by intro i e; rfl
   setOff := by intro i e; rfl
   getOffset := by
@@ -397,6 +401,8 @@ theorem opsOk32rela : OpsOk .c32 .rela ops32rela where
   addendOff := by intro _; rfl
   addendW := by intro _; rfl
   entsizeSmall := by intro e; simp [ops32rela, reloc_getrela32_entsize_small, BitVec.ult, sizeof_Elf32_Rela]
+  setSmall := by intro e; simp [ops32rela, reloc_setrela32_entsize_small, BitVec.ult, sizeof_Elf32_Rela]
+  setNodata := by intro x; rfl
   getOff := by intro i e; rfl
   setOff := by intro i e; rfl
   getOffset := by
@@ -455,6 +461,8 @@ theorem opsOk64rel : OpsOk .c64 .rel ops64rel where
   addendOff := by intro h; cases h
   addendW := by intro h; cases h
   entsizeSmall := by intro e; simp [ops64rel, reloc_getrel64_entsize_small, BitVec.ult, sizeof_Elf64_Rel]
+  setSmall := by intro e; simp [ops64rel, reloc_setrel64_entsize_small, BitVec.ult, sizeof_Elf64_Rel]
+  setNodata := by intro x; rfl
   getOff := by intro i e; rfl
   setOff := by intro i e; rfl
   getOffset := by
@@ -505,6 +513,8 @@ theorem opsOk64rela : OpsOk .c64 .rela ops64rela where
   addendOff := by intro _; rfl
   addendW := by intro _; rfl
   entsizeSmall := by intro e; simp [ops64rela, reloc_getrela64_entsize_small, BitVec.ult, sizeof_Elf64_Rela]
+  setSmall := by intro e; simp [ops64rela, reloc_setrela64_entsize_small, BitVec.ult, sizeof_Elf64_Rela]
+  setNodata := by intro x; rfl
   getOff := by intro i e; rfl
   setOff := by intro i e; rfl
   getOffset := by
